@@ -333,6 +333,43 @@ macro_rules! declare_storage_n {
                     }
                 )*
 
+                /// Verification hook (off by default): read-only copy of the internal layout as
+                /// `(version, len, capacity, free_head, slots (index, version), entities (key, version))`.
+                #[cfg(gecs_verif)]
+                #[doc(hidden)]
+                pub fn __verif_dump(&self) -> (u32, usize, usize, u32, Vec<(u32, u32)>, Vec<(u32, u32)>) {
+                    unsafe {
+                        // SAFETY: The slot storage is valid up to capacity, the entities up to len.
+                        let slots = self.slots.slice(self.capacity);
+                        let entities = self.entities.slice(self.len);
+                        (
+                            self.version.get().get(),
+                            self.len,
+                            self.capacity,
+                            self.free_head.__verif_raw(),
+                            slots.iter().map(|s| (s.index().__verif_raw(), s.version().get().get())).collect(),
+                            entities.iter().map(|e| e.into_any().raw()).collect(),
+                        )
+                    }
+                }
+
+                /// Verification hook (off by default): presets the generation of every slot and
+                /// the archetype version of an EMPTY storage, to reach overflow boundaries quickly.
+                #[cfg(gecs_verif)]
+                #[doc(hidden)]
+                pub fn __verif_preset_generations(&mut self, slot_version: u32, archetype_version: u32) {
+                    assert!(self.len == 0, "preset requires an empty storage");
+                    let slot_version = std::num::NonZeroU32::new(slot_version).unwrap();
+                    let archetype_version = std::num::NonZeroU32::new(archetype_version).unwrap();
+                    unsafe {
+                        // SAFETY: The slot storage is valid up to capacity.
+                        for slot in self.slots.slice_mut(self.capacity) {
+                            slot.__verif_set_version(crate::version::SlotVersion::new(slot_version));
+                        }
+                    }
+                    self.version = ArchetypeVersion::__verif_new(archetype_version);
+                }
+
                 /// Resolves the slot index and data index for a given entity.
                 /// Both indices are guaranteed to point to valid corresponding cells.
                 #[inline(always)]
